@@ -548,7 +548,7 @@ fn derive_func_op_shape(def: &FuncOpDef, symbol_table: &mut BTreeMap<Rc<str>, Sh
             // Return type is List(func.ret)
             match &func_shape {
                 Shape::Func(fdef) => Shape::List(NarrowedShape::new_with_pos(
-                    vec![fdef.ret.as_ref().clone()],
+                    vec![returned_shape(fdef, pos)],
                     pos.clone(),
                 )),
                 _ => Shape::List(NarrowedShape {
@@ -614,7 +614,9 @@ fn derive_func_op_shape(def: &FuncOpDef, symbol_table: &mut BTreeMap<Rc<str>, Sh
             // Return type is acc's shape narrowed against func.ret
             match &func_shape {
                 Shape::Func(fdef) => {
-                    let narrowed = acc_shape.narrow(&fdef.ret, symbol_table);
+                    // The callback's own parameter names must not reach the
+                    // caller's symbol table through its return shape.
+                    let narrowed = acc_shape.narrow(&returned_shape(fdef, pos), symbol_table);
                     match narrowed {
                         Shape::TypeErr(_, _) => acc_shape,
                         other => other,
